@@ -37,7 +37,7 @@ struct kfq { size_t k_; marked_ptr head_; marked_ptr tail_; };
 
 /* ---- segment pool, allocation ghost state.  pointer word of pool slot i is i+1 ---- */
 struct segment g_segs[LMAX]; _Bool g_alloc[LMAX]; unsigned char g_retired[LMAX], g_released[LMAX]; unsigned g_allocs;
-_Bool g_mem_ok = 1, g_retire_ok = 1, g_release_ok = 1;
+_Bool g_mem_ok = 1, g_retire_ok = 1, g_release_ok = 1, g_pre_ok = 1;
 static struct segment* segp(uint64_t w) {
   uint64_t p = MV_get(w);
   if (!(p >= 1 && p <= LMAX && g_alloc[p - 1] && !g_released[p - 1])) { g_mem_ok = 0; p = 1; }      /* kfq.mem.valid: only live segments are dereferenced */
@@ -87,7 +87,6 @@ static void TR_release(value_type v) { g_released_values++; }
 #define TR_store(target, raw) do { (target) = (raw); g_stored++; } while (0)
 static void TR_delete_value(raw_value_type raw) { if (raw != 0 && raw == g_track) { if (g_del_once) g_del_twice = 1; g_del_once = 1; } }
 static void seg_delete_remaining_items(struct segment* self);
-#define SEG_delete_remaining_items(s) seg_delete_remaining_items(&(s))
 
 /* ---- do_pop is instantiated with the two lambdas of try_pop ---- */
 static _Bool kfq_pop_success(value_type* result_p, marked_value* v_p);
@@ -95,8 +94,22 @@ static _Bool kfq_pop_empty(void);
 #define XV_SUCCESSFUNC(v) kfq_pop_success(result_p, &(v))
 #define XV_EMPTYFUNC() kfq_pop_empty()
 
-/* ---- callees of push / do_pop: the real text (SEQ runs) or recording stubs (XV_STUB, INT validation runs) ---- */
-#ifdef XV_STUB
+/* ---- callees of push / do_pop / the destructor: the real text (XV_STUB undefined), SEQ contract stubs (XV_STUB == 1; the contracts are proved for the real
+ * text by the runs find_index_*, committed_seq, advance_tail_seq, advance_head_seq, delete_remaining), or INT recording stubs (XV_STUB == 2) ---- */
+#if XV_STUB == 1
+static _Bool st_find_index_E(struct kfq* self, uint64_t seg, uint64_t* idx_p, uint64_t* old_p);
+static _Bool st_find_index_N(struct kfq* self, uint64_t seg, uint64_t* idx_p, uint64_t* old_p);
+static _Bool st_committed(struct kfq* self, uint64_t seg, uint64_t v, uint64_t idx);
+static void st_advance_tail(struct kfq* self, uint64_t t);
+static void st_advance_head(struct kfq* self, uint64_t* h, uint64_t t);
+static void st_delete_remaining_items(struct segment* s);
+#define CALL_find_index_E st_find_index_E
+#define CALL_find_index_N st_find_index_N
+#define CALL_committed st_committed
+#define CALL_advance_tail st_advance_tail
+#define CALL_advance_head st_advance_head
+#define SEG_delete_remaining_items(s) st_delete_remaining_items(&(s))
+#elif XV_STUB == 2
 static _Bool rec_find_index_E(struct kfq* self, uint64_t seg, uint64_t* idx_p, uint64_t* old_p);
 static _Bool rec_find_index_N(struct kfq* self, uint64_t seg, uint64_t* idx_p, uint64_t* old_p);
 static _Bool rec_committed(struct kfq* self, uint64_t seg, uint64_t v, uint64_t idx);
@@ -107,12 +120,14 @@ static void rec_advance_head(struct kfq* self, uint64_t* h, uint64_t t);
 #define CALL_committed rec_committed
 #define CALL_advance_tail rec_advance_tail
 #define CALL_advance_head rec_advance_head
+#define SEG_delete_remaining_items(s) seg_delete_remaining_items(&(s))
 #else
 #define CALL_find_index_E kfq_find_index_E
 #define CALL_find_index_N kfq_find_index_N
 #define CALL_committed kfq_committed
 #define CALL_advance_tail kfq_advance_tail
 #define CALL_advance_head kfq_advance_head
+#define SEG_delete_remaining_items(s) seg_delete_remaining_items(&(s))
 #endif
 static void iter_reset(struct kfq* self);
 #define XV_INV_PUSH 1
@@ -166,7 +181,7 @@ static void mon_cas(void* addr, uint64_t e, uint64_t d, _Bool ok, int o) {
 static void mon_reset(struct kfq* q) {
   mon_q = q; mon_probes_on = 0; mon_log_on = 0; mon_scan_weak = 0; mon_adv_ok = 1; mon_deleted_first = 1; mon_plain_store_ht = 0; mon_nprobe = 0;
   mon_slot_cas_n = 0; mon_head_cas_n = 0; mon_tail_cas_n = 0; mon_next_cas_n = 0; mon_head_loads = 0; mon_tail_loads = 0; mon_deleted_stores = 0;
-  g_released_values = 0; g_stored = 0; g_del_once = 0; g_del_twice = 0; g_allocs = 0; g_mem_ok = 1; g_retire_ok = 1; g_release_ok = 1; xv_threw = 0; xv_clock = 0;
+  g_released_values = 0; g_stored = 0; g_del_once = 0; g_del_twice = 0; g_allocs = 0; g_mem_ok = 1; g_retire_ok = 1; g_release_ok = 1; g_pre_ok = 1; xv_threw = 0; xv_clock = 0;
 }
 
 #include "lowered.h"
@@ -207,7 +222,8 @@ void h_find_index_N(void) { FOR_K(find_index_case(k_, 0)); }
  * quiescent states: a chain of L <= LMAX-1 segments in pool slots 0..L-1; head at hp, tail at tp (the last segment, or the one before it when a
  * freshly linked segment has not been published in tail_ yet); slots < hp are retired segments that have not been freed yet
  * ===================================================================================================== */
-uint64_t g_age[LMAX][KMAX], g_next_age;
+typedef uint16_t age_t;      /* ghost insertion order: only compared, at most LMAX*KMAX+1 distinct values are ever needed, so a small domain loses nothing */
+age_t g_age[LMAX][KMAX], g_next_age;
 static void havoc_state(struct kfq* q, uint64_t k) {
   q->k_ = k;
   in_L = nondet_u64(); in_hp = nondet_u64(); in_tp = nondet_u64(); XV_ASSUME(in_L >= 1 && in_L <= LMAX - 1 && in_hp <= in_tp && in_tp < in_L && in_tp + 2 >= in_L);
@@ -219,9 +235,9 @@ static void havoc_state(struct kfq* q, uint64_t k) {
     g_segs[i].k = (i < in_L) ? k : nondet_u64(); g_segs[i].deleted = nondet_bool();
     uint64_t nm = nondet_u64(), np = nondet_u64(); XV_ASSUME(nm <= 0xffff);
     g_segs[i].next = (i < in_L) ? MV_make(i + 1 < in_L ? i + 2 : 0, nm) : np;
-    for (unsigned j = 0; j < KMAX; j++) { g_segs[i].items[j].value = nondet_u64(); g_age[i][j] = nondet_u64(); if (i < in_L && j < k && MV_get(g_segs[i].items[j].value) != 0) in_occ |= ((uint64_t)1) << (i * KMAX + j); }
+    for (unsigned j = 0; j < KMAX; j++) { g_segs[i].items[j].value = nondet_u64(); g_age[i][j] = nondet_u16(); if (i < in_L && j < k && MV_get(g_segs[i].items[j].value) != 0) in_occ |= ((uint64_t)1) << (i * KMAX + j); }
   }
-  g_next_age = nondet_u64(); XV_ASSUME(g_next_age < (((uint64_t)1) << 63));
+  g_next_age = nondet_u16(); XV_ASSUME(g_next_age < 60000);
 }
 /* representation invariant over pool slots 0..L-1 (L = number of allocated slots, a prefix).  Branch-free. */
 static _Bool inv(struct kfq* q, uint64_t k, uint64_t* Lp, uint64_t* hpp, uint64_t* tpp) {
@@ -249,8 +265,111 @@ static _Bool inv(struct kfq* q, uint64_t k, uint64_t* Lp, uint64_t* hpp, uint64_
   return ok;
 }
 static unsigned count(uint64_t k, uint64_t L) { unsigned n = 0; for (unsigned i = 0; i < LMAX; i++) for (unsigned j = 0; j < KMAX; j++) if (i < L && j < k && MV_get(g_segs[i].items[j].value) != 0) n++; return n; }
+
+/* ---- SEQ contracts of the callees (no interference; call-site preconditions hold in every state satisfying inv) ---- */
+static uint64_t any_mark(void) { uint64_t m = nondet_u64(); XV_ASSUME(m <= 0xffff); return m; }
+/* committed(seg, value, index): requires items[index] == value and seg not marked deleted (inv: the tail segment never is);
+ * ensures: true; if seg is the head segment the mark of head_ is incremented; nothing else changes */
+static _Bool committed_pre(struct kfq* q, uint64_t seg, uint64_t v, uint64_t idx) {
+  struct segment* s = SEGP(seg);
+  return idx < s->k && idx < KMAX && s->items[idx].value == v && !s->deleted;
+}
+/* advance_tail(t): requires t == tail_;  ensures: tail_ points to the successor of t's segment - the existing one, or a freshly allocated empty segment linked behind it; nothing else changes */
+/* advance_head(&h, t): requires h == head_, t == tail_, the head segment is empty;  ensures: if head is also the tail segment and has no successor nothing changes; otherwise
+ * (tail_ is first moved to the successor if it still points to the head segment) the head segment is marked deleted, head_ points to its successor, the old head segment is
+ * retired once and the guard is reset */
+#if XV_STUB == 1
+static _Bool st_find_index(struct kfq* self, uint64_t seg, uint64_t* idx_p, uint64_t* old_p, _Bool empty) {
+  struct segment* s = SEGP(seg); uint64_t k = s->k; _Bool r = nondet_bool();
+  if (r) { uint64_t i = nondet_u64(); XV_ASSUME(i < k && i < KMAX && (MV_get(s->items[i].value) == 0) == empty); *idx_p = i; *old_p = s->items[i].value; }
+  else { for (unsigned j = 0; j < KMAX; j++) if (j < k) XV_ASSUME((MV_get(s->items[j].value) == 0) != empty); *old_p = nondet_u64(); }
+  return r;
+}
+static _Bool st_find_index_E(struct kfq* self, uint64_t seg, uint64_t* idx_p, uint64_t* old_p) { return st_find_index(self, seg, idx_p, old_p, 1); }
+static _Bool st_find_index_N(struct kfq* self, uint64_t seg, uint64_t* idx_p, uint64_t* old_p) { return st_find_index(self, seg, idx_p, old_p, 0); }
+static _Bool st_committed(struct kfq* self, uint64_t seg, uint64_t v, uint64_t idx) {
+  if (!committed_pre(self, seg, v, idx)) g_pre_ok = 0;
+  if (MV_get(seg) == MV_get(self->head_)) self->head_ = MV_make(MV_get(self->head_), MV_mark(self->head_) + 1);
+  return 1;
+}
+static void st_advance_tail(struct kfq* self, uint64_t t) {
+  if (t != self->tail_) g_pre_ok = 0;
+  struct segment* s = SEGP(t);
+  if (MV_get(s->next) != 0) self->tail_ = MV_make(MV_get(s->next), any_mark());
+  else { uint64_t n = xv_alloc_segment(self); s->next = MV_make(n, any_mark()); self->tail_ = MV_make(n, any_mark()); }
+}
+static void st_advance_head(struct kfq* self, uint64_t* h, uint64_t t) {
+  if (!(*h == self->head_ && t == self->tail_ && seg_all_null(SEGP(*h)))) g_pre_ok = 0;
+  struct segment* hs = SEGP(*h); uint64_t nx = MV_get(hs->next);
+  if (MV_get(*h) == MV_get(t)) { if (nx == 0) return; self->tail_ = MV_make(nx, any_mark()); }
+  hs->deleted = 1; self->head_ = MV_make(nx, any_mark());
+  gp_reclaim(h);
+}
+static void st_delete_remaining_items(struct segment* s) {
+  for (unsigned j = 0; j < KMAX; j++) if (j < s->k) { TR_delete_value(MV_get(s->items[j].value)); s->items[j].value = 0; }
+}
+#endif
+
+/* proofs of the three contracts for the real text */
 struct segment o_segs[LMAX];
 static void snapshot(void) { for (unsigned i = 0; i < LMAX; i++) o_segs[i] = g_segs[i]; }
+static _Bool seg_eq(unsigned i, _Bool ignore_next, _Bool ignore_deleted) {
+  _Bool r = (g_segs[i].k == o_segs[i].k) & (ignore_next | (g_segs[i].next == o_segs[i].next)) & (ignore_deleted | (g_segs[i].deleted == o_segs[i].deleted));
+  for (unsigned j = 0; j < KMAX; j++) r &= g_segs[i].items[j].value == o_segs[i].items[j].value;
+  return r;
+}
+static void committed_seq_case(uint64_t k) {
+  struct kfq q; havoc_state(&q, k); mon_reset(&q); uint64_t L, hp, tp;
+  XV_ASSUME(inv(&q, k, &L, &hp, &tp));
+  uint64_t sp = nondet_u64(), sm = any_mark(), idx = nondet_u64(); XV_ASSUME(sp >= 1 && sp <= L);
+  marked_ptr seg = MV_make(sp, sm); XV_ASSUME(idx < k);
+  marked_value v = g_segs[sp - 1].items[idx].value;
+  XV_ASSUME(committed_pre(&q, seg, v, idx));
+  snapshot(); marked_ptr head0 = q.head_, tail0 = q.tail_;
+  _Bool r = kfq_committed(&q, seg, v, idx);
+  XV_OBL("kfq.committed.seq", r && q.tail_ == tail0 && g_mem_ok);
+  XV_OBL("kfq.committed.seq", q.head_ == (sp == MV_get(head0) ? MV_make(MV_get(head0), MV_mark(head0) + 1) : head0));
+  unsigned i = nondet_uint(); if (i < LMAX) XV_OBL("kfq.committed.seq", seg_eq(i, 0, 0));
+  XV_OBL("kfq.advance.one_segment", mon_adv_ok && !mon_plain_store_ht);
+  if (sp == MV_get(head0)) XV_CANARY("committed_seq.at_head"); else XV_CANARY("committed_seq.behind_tail");
+}
+void h_committed_seq(void) { FOR_K(committed_seq_case(k_)); }
+static void advance_tail_seq_case(uint64_t k) {
+  struct kfq q; havoc_state(&q, k); mon_reset(&q); uint64_t L, hp, tp;
+  XV_ASSUME(inv(&q, k, &L, &hp, &tp));
+  snapshot(); marked_ptr head0 = q.head_, tail0 = q.tail_;
+  kfq_advance_tail(&q, tail0);
+  _Bool had_next = tp + 1 < L;
+  XV_OBL("kfq.advance_tail.seq", q.head_ == head0 && MV_get(q.tail_) == tp + 2 && g_allocs == (had_next ? 0 : 1) && g_mem_ok && g_release_ok);
+  unsigned i = nondet_uint();
+  if (i < L) XV_OBL("kfq.advance_tail.seq", seg_eq(i, !had_next && i == tp, 0) && (had_next || i != tp || MV_get(g_segs[i].next) == tp + 2));
+  if (!had_next) XV_OBL("kfq.advance_tail.seq", g_alloc[tp + 1] && !g_released[tp + 1] && g_segs[tp + 1].k == k && !g_segs[tp + 1].deleted && MV_get(g_segs[tp + 1].next) == 0 && seg_all_null(&g_segs[tp + 1]));
+  XV_OBL("kfq.advance.one_segment", mon_adv_ok && !mon_plain_store_ht);
+  if (had_next) XV_CANARY("advance_tail_seq.helped"); else XV_CANARY("advance_tail_seq.allocated");
+}
+void h_advance_tail_seq(void) { FOR_K(advance_tail_seq_case(k_)); }
+static void advance_head_seq_case(uint64_t k) {
+  struct kfq q; havoc_state(&q, k); mon_reset(&q); uint64_t L, hp, tp;
+  XV_ASSUME(inv(&q, k, &L, &hp, &tp));
+  XV_ASSUME(seg_all_null(&g_segs[hp]));
+  snapshot(); marked_ptr head0 = q.head_, tail0 = q.tail_; guard_ptr g = head0;
+  kfq_advance_head(&q, &g, tail0);
+  _Bool stuck = hp == tp && hp + 1 == L;
+  if (stuck) {
+    XV_OBL("kfq.advance_head.seq", q.head_ == head0 && q.tail_ == tail0 && g == head0 && g_retired[hp] == 0);
+    unsigned i = nondet_uint(); if (i < L) XV_OBL("kfq.advance_head.seq", seg_eq(i, 0, 0));
+    XV_CANARY("advance_head_seq.no_successor");
+  } else {
+    XV_OBL("kfq.advance_head.seq", MV_get(q.head_) == hp + 2 && (hp == tp ? MV_get(q.tail_) == tp + 2 : q.tail_ == tail0) && g == 0);
+    XV_OBL("kfq.advance_head.seq", g_segs[hp].deleted && g_retired[hp] == 1 && g_retire_ok);
+    unsigned i = nondet_uint(); if (i < L) XV_OBL("kfq.advance_head.seq", seg_eq(i, 0, i == hp) && g_retired[i] == ((i <= hp) ? 1 : 0));
+    if (hp == tp) XV_CANARY("advance_head_seq.moved_tail_too"); else XV_CANARY("advance_head_seq.plain");
+  }
+  XV_OBL("kfq.advance_head.deleted_first", mon_deleted_first);
+  XV_OBL("kfq.advance.one_segment", mon_adv_ok && !mon_plain_store_ht);
+  XV_OBL("kfq.mem.valid", g_mem_ok && g_release_ok && g_allocs == 0);
+}
+void h_advance_head_seq(void) { FOR_K(advance_head_seq_case(k_)); }
 
 /* ---- SEQ: push never fails; the value lands in exactly one empty slot of the (possibly advanced / freshly allocated) tail segment ---- */
 static void push_case(uint64_t k) {
@@ -269,7 +388,7 @@ static void push_case(uint64_t k) {
   g_age[ci][cj] = g_next_age; g_next_age++;
   XV_OBL("kfq.inv.preserved", inv(&q, k, &L2, &hp2, &tp2) && hp2 == hp && tp2 >= tp && L2 == L + g_allocs);
   XV_OBL("kfq.advance.one_segment", mon_adv_ok && !mon_plain_store_ht);
-  XV_OBL("kfq.mem.valid", g_mem_ok && g_retire_ok && g_release_ok);
+  XV_OBL("kfq.mem.valid", g_mem_ok && g_retire_ok && g_release_ok && g_pre_ok);
   if (g_allocs == 1) XV_CANARY("push.allocated");
   if (tp2 > tp && g_allocs == 0) XV_CANARY("push.helped_tail");
   if (q.head_ != head0) XV_CANARY("push.bumped_head");
@@ -313,7 +432,7 @@ static void pop_case(uint64_t k) {
   XV_OBL("kfq.retire.once_empty", g_retire_ok && g_release_ok);
   XV_OBL("kfq.advance_head.deleted_first", mon_deleted_first);
   XV_OBL("kfq.advance.one_segment", mon_adv_ok && !mon_plain_store_ht);
-  XV_OBL("kfq.mem.valid", g_mem_ok);
+  XV_OBL("kfq.mem.valid", g_mem_ok && g_pre_ok);
   if (hp2 > hp) XV_CANARY("pop.advanced_head");
   if (tp2 > tp) XV_CANARY("pop.advanced_tail");
   if (g_allocs) XV_CANARY("pop.allocated");
@@ -323,8 +442,8 @@ void h_pop(void) { FOR_K(pop_case(k_)); }
 /* ---- constructor: one empty segment, head_ == tail_ == it; satisfies inv ---- */
 static void ctor_case(uint64_t k) {
   struct kfq q; q.k_ = nondet_size(); q.head_ = nondet_u64(); q.tail_ = nondet_u64(); mon_reset(&q);
-  for (unsigned i = 0; i < LMAX; i++) { g_alloc[i] = 0; g_released[i] = 0; g_retired[i] = 0; g_segs[i].k = nondet_u64(); g_segs[i].deleted = nondet_bool(); g_segs[i].next = nondet_u64(); for (unsigned j = 0; j < KMAX; j++) { g_segs[i].items[j].value = nondet_u64(); g_age[i][j] = nondet_u64(); } }
-  g_next_age = nondet_u64(); XV_ASSUME(g_next_age < (((uint64_t)1) << 63));
+  for (unsigned i = 0; i < LMAX; i++) { g_alloc[i] = 0; g_released[i] = 0; g_retired[i] = 0; g_segs[i].k = nondet_u64(); g_segs[i].deleted = nondet_bool(); g_segs[i].next = nondet_u64(); for (unsigned j = 0; j < KMAX; j++) { g_segs[i].items[j].value = nondet_u64(); g_age[i][j] = nondet_u16(); } }
+  g_next_age = nondet_u16(); XV_ASSUME(g_next_age < 60000);
   kfq_ctor(&q, k);
   uint64_t L, hp, tp;
   XV_OBL("kfq.inv.preserved", inv(&q, k, &L, &hp, &tp) && L == 1 && q.head_ == q.tail_ && MV_mark(q.head_) == 0 && g_allocs == 1 && count(k, 1) == 0);
